@@ -1,5 +1,5 @@
 use crate::code::utils::line_break_pos_finder::{
-    find_next_line_break_pos, find_prev_line_break_pos,
+    find_next_line_break_pos, find_prev_line_break_pos, is_line_head,
 };
 
 use super::Formatter;
@@ -51,7 +51,7 @@ impl Formatter for EmptyLineRemover {
             panic!("Invalid byte position: {}", byte_pos);
         }
 
-        if bytes.get(byte_pos) != Some(&b'\n') {
+        if bytes.get(byte_pos) != Some(&b'\n') || !is_line_head(bytes, byte_pos) {
             return (byte_pos, byte_pos);
         }
 
